@@ -144,6 +144,13 @@ def proportional(a, b, kind, tol=1e-8):
     return close(a, c * b, tol)
 
 
+def vacuous(r):
+    fp = r["fp"]
+    if np.ptp(fp) > 1e-13:
+        return False
+    return (r["kind"] == "ineq" and fp[0] >= 0) or (r["kind"] == "eq" and abs(fp[0]) < 1e-13)
+
+
 def match_rows(real_rows, ref_rows, tol=1e-8, set_origins=("grid", "Tpos")):
     """Multiset matching of canonical rows; set-semantics (up to positive scaling) for the
     origins in set_origins.  Returns (missing_ref_rows, extra_real_rows)."""
@@ -159,9 +166,13 @@ def match_rows(real_rows, ref_rows, tol=1e-8, set_origins=("grid", "Tpos")):
             if close(q["fp"], r["fp"], tol) or (r["kind"] == "eq" and close(q["fp"], -r["fp"], tol)):
                 hit = j; break
         if hit is None:
+            if vacuous(r):
+                r["vacuous"] = True     # constant and satisfied: rockit legitimately drops such rows
+                continue
             missing.append(r)
         else:
             used[hit] = True
+            r["match"] = hit
     for r in set_refs:
         found = False
         for j, q in enumerate(real_rows):
